@@ -94,8 +94,8 @@ def run_one(entry, tier="quick"):
         shutil.rmtree(tmp, ignore_errors=True)
 
 
-def run_corpus(props=None, jobs=16, tier="quick", verbose=False):
-    entries = [e for e in corpus.CORPUS if not props or e["prop"] in props]
+def run_corpus(props=None, jobs=16, tier="quick", verbose=False, ids=None):
+    entries = [e for e in corpus.CORPUS if (not props or e["prop"] in props) and (not ids or any(i in e["id"] for i in ids))]
     results = []
     with cf.ThreadPoolExecutor(max_workers=jobs) as ex:
         futs = {ex.submit(run_one, e, tier): e for e in entries}
@@ -118,7 +118,8 @@ def summarise(results):
 
 def main(ns):
     props = [p.strip().upper() for p in ns.props.split(",") if p.strip()] or None
-    res = run_corpus(props, jobs=ns.jobs, verbose=ns.v)
+    ids = [i.strip() for i in getattr(ns, "ids", "").split(",") if i.strip()] or None
+    res = run_corpus(props, jobs=ns.jobs, verbose=ns.v, ids=ids)
     s = summarise(res)
     print("selftest:", s)
     bad = [r for r in res if r["status"] in ("survived", "false-alarm", "error", "wrong-site")]
